@@ -15,12 +15,15 @@
 package main
 
 import (
+	"bytes"
 	"encoding/json"
 	"errors"
 	"fmt"
 	"io"
 	"os"
+	"os/exec"
 	"path/filepath"
+	"runtime"
 	"sort"
 	"strconv"
 	"strings"
@@ -46,6 +49,10 @@ type step struct {
 	T       int    `json:"t,omitempty"`
 	P       int    `json:"p,omitempty"`
 	Targets []int  `json:"targets,omitempty"`
+	// Hold (time-out steps only): the harness holds the servent mutex from this step until the
+	// next action has been issued, so the worker's timer wins the select but its clean-up cannot
+	// run before the next action (a late reply) has queued up on the mutex.
+	Hold bool `json:"hold,omitempty"`
 
 	// filled by annotate(); not part of the input identity
 	awaitSends  int
@@ -59,6 +66,10 @@ type step struct {
 
 type input struct {
 	Steps []step `json:"steps"`
+	// Level 0: the script goes through CommandQueue.Enqueue.  Level 1: the harness plays
+	// CommandQueue.commit itself (one goroutine per target calling the real Servent.RunCommand,
+	// one command at a time, same consolidation) and so sees what every RunCommand returned.
+	Level int `json:"level,omitempty"`
 }
 
 // ---------------------------------------------------------------- planner
@@ -70,6 +81,7 @@ const (
 	phSend = iota
 	phWait
 	phDone
+	phTO // timer fired under a held step: call.Error set, clean-up not yet run
 )
 
 type pworker struct {
@@ -147,22 +159,8 @@ func (p *planner) settle() {
 	}
 }
 
-// apply performs one environment action; false = not enabled (nothing changed).
-func (p *planner) apply(s *step) bool {
-	s.inWaitW = -1
-	s.absCmd, s.awaitAbsent = 0, nil
-	defer func() { s.awaitSends, s.awaitDone, s.awaitResp = p.sends, p.done, p.resp }()
-	var before map[int]int
-	beforeCmd := 0
-	if p.cur != nil {
-		beforeCmd = p.cur.id
-		before = map[int]int{}
-		for k, v := range p.cur.pending {
-			before[k] = v
-		}
-	}
-	beforeCur := p.cur
-	ok := true
+// act applies the action itself; false = not enabled (nothing changed).
+func (p *planner) act(s *step) bool {
 	switch s.Op {
 	case "enq":
 		c := pcmd{s.Cmd, append([]int(nil), s.Targets...)}
@@ -197,10 +195,15 @@ func (p *planner) apply(s *step) bool {
 			}
 		case "timeout":
 			if w.phase != phWait || w.taken {
+				s.Hold = false
 				return false
 			}
-			w.phase = phDone
-			delete(k.pending, t)
+			if s.Hold {
+				w.phase = phTO
+			} else {
+				w.phase = phDone
+				delete(k.pending, t)
+			}
 		}
 	case "deliver":
 		k := p.cur
@@ -220,8 +223,10 @@ func (p *planner) apply(s *step) bool {
 					w.taken = true
 					s.note = "presend"
 				default:
-					// a finished worker never owns a pending entry
+					// phTO: the reply takes the call of a worker whose timer has already won the
+					// select; the responder stays blocked on Done for ever
 					p.leaks++
+					s.note = "race"
 				}
 			}
 		}
@@ -231,6 +236,42 @@ func (p *planner) apply(s *step) bool {
 		}
 	default:
 		return false
+	}
+	return true
+}
+
+// apply performs one environment action; false = not enabled (only a held clean-up may have run).
+func (p *planner) apply(s *step) bool {
+	s.inWaitW = -1
+	s.absCmd, s.awaitAbsent = 0, nil
+	if s.Op != "timeout" || !holdsSupported {
+		s.Hold = false
+	}
+	defer func() { s.awaitSends, s.awaitDone, s.awaitResp = p.sends, p.done, p.resp }()
+	var before map[int]int
+	beforeCmd := 0
+	if p.cur != nil {
+		beforeCmd = p.cur.id
+		before = map[int]int{}
+		for k, v := range p.cur.pending {
+			before[k] = v
+		}
+	}
+	beforeCur := p.cur
+	ok := p.act(s)
+	if !ok {
+		s.Hold = false
+	}
+	if !(s.Op == "timeout" && s.Hold) && p.cur != nil {
+		// the mutex is free again: pending clean-ups of timed-out workers run
+		for i := range p.cur.ws {
+			if p.cur.ws[i].phase == phTO {
+				p.cur.ws[i].phase = phDone
+				if wi, has := p.cur.pending[p.cur.targets[i]]; has && wi == i {
+					delete(p.cur.pending, p.cur.targets[i])
+				}
+			}
+		}
 	}
 	p.settle()
 	if before != nil {
@@ -254,7 +295,7 @@ func annotate(steps []step) (*planner, []step) {
 	out := make([]step, 0, len(steps))
 	for _, s := range steps {
 		s2 := s
-		p.apply(&s2) // a disabled action stays in the script: the model ignores it as well
+		p.apply(&s2) // a disabled action stays in the script: the model ignores it as well (Hold is cleared)
 		out = append(out, s2)
 	}
 	return p, out
@@ -321,9 +362,13 @@ type observation struct {
 	Sends   [][2]int `json:"sends"`
 	Pending int      `json:"pending"`
 	Leaks   int      `json:"leaks"`
+	When    []int    `json:"when"`            // per command: 1-based step after which it was first seen completed (0: not during the script)
+	Nils    int      `json:"nils,omitempty"`  // RunCommand invocations that returned (nil, nil) (level 1)
+	Crash   int      `json:"crash,omitempty"` // the process playing the script died
 	Stuck   string   `json:"stuck,omitempty"`
 	Tries   int      `json:"tries,omitempty"`
 	TmoMs   int      `json:"timeout_ms,omitempty"`
+	Detail  string   `json:"detail,omitempty"`
 }
 
 type runner struct {
@@ -343,6 +388,125 @@ type runner struct {
 	invalid  bool
 
 	awaitingTimer bool // the current step is a time-out: waits must outlast the timer
+	raceLost      bool // a forced race did not come out in the order asked for
+
+	// level 1: the harness plays commit itself
+	level int
+	sq    chan *sentry
+	sres  map[int]*sresult
+	nils  int32
+}
+
+type respState struct{ started, ret int32 }
+
+// held steps need the Lock/Unlock hook of zz_verif_c12.go; against a tree that does not have it
+// (yet) the harness still builds and plays held time-outs as ordinary ones
+type locker interface {
+	VerifC12Lock()
+	VerifC12Unlock()
+}
+
+var holdsSupported = func() bool {
+	_, ok := interface{}(cc.NewServent(nil)).(locker)
+	return ok
+}()
+
+type sentry struct {
+	id      int
+	cmd     *cc.MesosCommandBase
+	targets []cc.MesosCommandTarget
+}
+
+type sresult struct {
+	fires int
+	res   resultObs
+}
+
+// serventLoop is the harness's own copy of the CommandQueue goroutine + commit: one command at a
+// time, one goroutine per target calling the real Servent.RunCommand with the single-target
+// copy of the command, results collected in arrival order into a map keyed by target, zero /
+// one / several distinct targets giving nil / that response / a multi response.
+func (r *runner) serventLoop() {
+	type tres struct {
+		t    cc.MesosCommandTarget
+		resp cc.MesosCommandResponse
+		err  error
+	}
+	for e := range r.sq {
+		ch := make(chan tres, len(e.targets))
+		for _, t := range e.targets {
+			go func(t cc.MesosCommandTarget) {
+				resp, err := r.sv.RunCommand(e.cmd.MakeSingleTarget(t), t)
+				ch <- tres{t, resp, err}
+			}(t)
+		}
+		byT := map[int]entryObs{}
+		for range e.targets {
+			x := <-ch
+			var eo entryObs
+			switch {
+			case x.err != nil && x.resp == nil:
+				msg := x.err.Error()
+				switch {
+				case msg == sendErrText(e.cmd.GetId(), x.t):
+					eo = entryObs{Kind: "senderr"}
+				case strings.Contains(msg, "verif-send-fail"):
+					eo = entryObs{Kind: "other"}
+				default:
+					eo = entryObs{Kind: "timeout"}
+				}
+			case x.err != nil:
+				eo = entryObs{Kind: "other"} // a response and an error at once
+			case x.resp == nil:
+				atomic.AddInt32(&r.nils, 1)
+				eo = entryObs{Kind: "other"}
+			default:
+				eo = classifyEntry(x.resp, e.cmd.GetId(), x.t)
+			}
+			byT[targetNum(x.t)] = eo
+		}
+		var res resultObs
+		switch len(byT) {
+		case 0:
+			res = resultObs{Kind: "nil"}
+		case 1:
+			for _, eo := range byT {
+				eo := eo
+				res = resultObs{Kind: "single", Single: &eo}
+			}
+		default:
+			res = resultObs{Kind: "multi"}
+			for n := range byT {
+				res.Targets = append(res.Targets, n)
+			}
+			sort.Ints(res.Targets)
+			for _, n := range res.Targets {
+				res.Entries = append(res.Entries, byT[n])
+			}
+		}
+		r.mu.Lock()
+		sr := r.sres[e.id]
+		if sr == nil {
+			sr = &sresult{}
+			r.sres[e.id] = sr
+		}
+		sr.fires++
+		sr.res = res
+		r.mu.Unlock()
+	}
+}
+
+// fired: number of values the command's callback has received so far.
+func (r *runner) fired(id int) int {
+	if r.level == 1 {
+		r.mu.Lock()
+		defer r.mu.Unlock()
+		if sr := r.sres[id]; sr != nil {
+			return sr.fires
+		}
+		return 0
+	}
+	return len(r.cbs[id])
 }
 
 const watchdog = 4 * time.Second
@@ -383,7 +547,7 @@ func (r *runner) nInvs() int {
 func (r *runner) nDone() int {
 	n := 0
 	for _, id := range r.order {
-		if len(r.cbs[id]) > 0 {
+		if r.fired(id) > 0 {
 			n++
 		}
 	}
@@ -571,16 +735,57 @@ func (r *runner) classify(id int, v cc.MesosCommandResponse) (res resultObs) {
 	return resultObs{Kind: "single", Single: &e}
 }
 
-func runScript(steps []step, T time.Duration) (observation, bool) {
+func runScript(steps []step, level int, T time.Duration) (observation, int) {
 	r := &runner{xids: map[int]xid.ID{}, cbs: map[int]chan cc.MesosCommandResponse{},
-		cmds: map[int][]int{}, resolved: map[int]bool{}, T: T}
+		cmds: map[int][]int{}, resolved: map[int]bool{}, T: T, level: level,
+		sres: map[int]*sresult{}}
 	r.sv = cc.NewServent(r.sendFunc)
-	r.q = cc.NewCommandQueue(r.sv)
-	r.q.Start()
+	if level == 1 {
+		r.sq = make(chan *sentry, 64)
+		go r.serventLoop()
+	} else {
+		r.q = cc.NewCommandQueue(r.sv)
+		r.q.Start()
+	}
 	envId := uid.New()
+
+	var raced []*respState // responders of forced races: they must stay blocked on Done
+	seen := map[int]bool{}
+	when := map[int]int{}
+	lastObs := time.Now()
+	var heldIv *invocation // non-nil: the servent mutex is held since a held time-out step
+	holding := false
+	lk, _ := interface{}(r.sv).(locker)
+	release := func() {
+		if !holding {
+			return
+		}
+		// let the action just issued queue up on the mutex, then wait until the timer has
+		// fired and RunCommand has reached its clean-up (also blocked on the mutex)
+		time.Sleep(2 * time.Millisecond)
+		if heldIv != nil {
+			if d := time.Until(heldIv.at.Add(T + 8*time.Millisecond)); d > 0 {
+				time.Sleep(d)
+			}
+		}
+		lk.VerifC12Unlock()
+		holding, heldIv = false, nil
+	}
+	defer func() {
+		if holding {
+			lk.VerifC12Unlock()
+		}
+	}()
 
 	for i := range steps {
 		s := &steps[i]
+		if s.Op == "timeout" && !holding {
+			// the timer of this worker must not have fired before the last look at the
+			// callbacks, or the completion could have been seen a step too early
+			if iv := r.invOf(s.Cmd, s.W); iv != nil && iv.released && iv.at.Add(T).Before(lastObs.Add(2*time.Millisecond)) {
+				r.invalid = true
+			}
+		}
 		switch s.Op {
 		case "enq":
 			var tl []cc.MesosCommandTarget
@@ -596,7 +801,9 @@ func runScript(steps []step, T time.Duration) (observation, bool) {
 			r.mu.Unlock()
 			cb := make(chan cc.MesosCommandResponse, 8)
 			r.cbs[s.Cmd] = cb
-			if err := r.q.Enqueue(cmd, cb); err != nil {
+			if level == 1 {
+				r.sq <- &sentry{id: s.Cmd, cmd: cmd, targets: tl}
+			} else if err := r.q.Enqueue(cmd, cb); err != nil {
 				r.stuck = "enqueue refused"
 			}
 		case "sendok", "senderr":
@@ -613,6 +820,15 @@ func runScript(steps []step, T time.Duration) (observation, bool) {
 			}
 		case "timeout":
 			// nothing to do: the timer fires by itself; the await below observes it
+			if s.Hold && !holding && lk != nil {
+				iv := r.invOf(s.Cmd, s.W)
+				if iv == nil || !iv.released || time.Since(iv.at) > T/2 {
+					r.invalid = true // too late to get hold of the mutex before the timer fires
+				}
+				lk.VerifC12Lock()
+				holding, heldIv = true, iv
+				continue // no settling: the code cannot move
+			}
 		case "deliver":
 			tgt := mkTarget(s.T)
 			resp := &tagResp{Tag: s.P}
@@ -625,13 +841,27 @@ func runScript(steps []step, T time.Duration) (observation, bool) {
 				resp.ErrorString = fmt.Sprintf("task-%d says no (%d)", s.T, s.P)
 			}
 			r.spawned++
+			rs := &respState{}
 			go func() {
+				atomic.StoreInt32(&rs.started, 1)
 				r.sv.ProcessResponse(resp, tgt)
+				atomic.StoreInt32(&rs.ret, 1)
 				atomic.AddInt32(&r.returned, 1)
 			}()
+			if holding {
+				// the responder must be queued on the mutex before the clean-up gets there
+				for d := time.Now().Add(time.Second); atomic.LoadInt32(&rs.started) == 0 && time.Now().Before(d); {
+					time.Sleep(100 * time.Microsecond)
+				}
+				if s.note == "race" {
+					raced = append(raced, rs)
+				}
+			}
 		}
+		wasHeld := holding
+		release()
 		// settle
-		r.awaitingTimer = s.Op == "timeout"
+		r.awaitingTimer = s.Op == "timeout" || wasHeld
 		r.waitFor(fmt.Sprintf("step %d (%s): SendFunc invocations", i, s.Op), func() bool { return r.nInvs() >= s.awaitSends })
 		r.resolve()
 		r.waitFor(fmt.Sprintf("step %d (%s): responders returned", i, s.Op), func() bool { return int(atomic.LoadInt32(&r.returned)) >= s.awaitResp })
@@ -649,8 +879,34 @@ func runScript(steps []step, T time.Duration) (observation, bool) {
 				r.invalid = true // the timer may have fired first: not the schedule that was asked for
 			}
 		}
+		if wasHeld && s.note == "race" && int(atomic.LoadInt32(&r.returned)) > s.awaitResp {
+			r.raceLost = true // the clean-up got the mutex before the responder: not the schedule asked for
+		}
+		// look at the callbacks (not between the time-outs of one batch: timers run by themselves)
+		if !(s.Op == "timeout" && i+1 < len(steps) && steps[i+1].Op == "timeout") {
+			if level == 1 {
+				time.Sleep(2 * time.Millisecond) // a completion nobody asked for gets the time to show
+			}
+			for _, id := range r.order {
+				if !seen[id] && r.fired(id) > 0 {
+					seen[id] = true
+					when[id] = i + 1
+				}
+			}
+			lastObs = time.Now()
+		}
+	}
+	if holding {
+		release()
 	}
 
+	// a responder of a forced race that has returned by itself did not find the call (the
+	// clean-up got the mutex first): not the schedule that was asked for
+	for _, rs := range raced {
+		if atomic.LoadInt32(&rs.ret) == 1 {
+			r.raceLost = true
+		}
+	}
 	// leaked responders: whoever is still blocked in call.Done<- is released (and counted)
 	leaks := 0
 	deadline := time.Now().Add(watchdog)
@@ -675,10 +931,23 @@ func runScript(steps []step, T time.Duration) (observation, bool) {
 		time.Sleep(100 * time.Microsecond)
 	}
 
-	obs := observation{Pending: r.sv.VerifC12PendingLen(), Leaks: leaks, Stuck: r.stuck}
+	obs := observation{Pending: r.sv.VerifC12PendingLen(), Leaks: leaks, Stuck: r.stuck,
+		Nils: int(atomic.LoadInt32(&r.nils)), When: []int{}}
 	for _, id := range r.order {
-		cb := r.cbs[id]
+		obs.When = append(obs.When, when[id])
 		co := cmdObs{}
+		if level == 1 {
+			r.mu.Lock()
+			if sr := r.sres[id]; sr != nil {
+				co.Fires, co.Result = sr.fires, sr.res
+			} else {
+				co.Result = resultObs{Kind: "nil"}
+			}
+			r.mu.Unlock()
+			obs.Outs = append(obs.Outs, co)
+			continue
+		}
+		cb := r.cbs[id]
 		var last cc.MesosCommandResponse
 		for len(cb) > 0 {
 			last = <-cb
@@ -716,25 +985,43 @@ func runScript(steps []step, T time.Duration) (observation, bool) {
 		}
 		return obs.Sends[i][1] < obs.Sends[j][1]
 	})
-	go r.q.Stop()
-	return obs, r.invalid
+	if level == 1 {
+		close(r.sq)
+	} else {
+		go r.q.Stop()
+	}
+	switch {
+	case r.invalid:
+		return obs, 1
+	case r.raceLost:
+		return obs, 2
+	}
+	return obs, 0
 }
 
 // runCase runs a script; a run whose timing-sensitive step (a reply meant to arrive while the
 // timer is still running) came too late is discarded and repeated with a longer timeout.
 func runCase(in input) (observation, []step) {
 	_, steps := annotate(in.Steps)
+	level := 0
+	if in.Level == 1 {
+		level = 1
+	}
 	T := baseTimeout
 	var obs observation
 	for try := 1; ; try++ {
-		var invalid bool
-		obs, invalid = runScript(steps, T)
+		var invalid int
+		obs, invalid = runScript(steps, level, T)
 		obs.Tries = try
 		obs.TmoMs = int(T / time.Millisecond)
-		if !invalid || try >= 6 {
+		// a lost race is repeated twice only: code that lets somebody else consume the blocked
+		// responder's signal looks the same, and is then reported as observed
+		if invalid == 0 || try >= 6 || (invalid == 2 && try >= 3) {
 			break
 		}
-		T *= 2
+		if invalid == 1 {
+			T *= 2
+		}
 	}
 	return obs, steps
 }
@@ -796,9 +1083,19 @@ func stepTerm(s step) string {
 }
 
 func caseTerm(in input, o observation) string {
+	_, ann := annotate(in.Steps) // Hold flags the planner did not honour are cleared
 	st := make([]string, len(in.Steps))
+	var holds, whens []int
 	for i, s := range in.Steps {
 		st[i] = stepTerm(s)
+		if ann[i].Hold {
+			holds = append(holds, i)
+		}
+	}
+	whens = append(whens, o.When...)
+	level := 0
+	if in.Level == 1 {
+		level = 1
 	}
 	outs := make([]string, len(o.Outs))
 	for i, c := range o.Outs {
@@ -808,7 +1105,8 @@ func caseTerm(in input, o observation) string {
 	for i, s := range o.Sends {
 		sends[i] = gen.Pair(gen.N(uint64(s[0])), gen.N(uint64(s[1])))
 	}
-	return fmt.Sprintf("mkCase %s %s %s %d %d", gen.List(st), gen.List(outs), gen.List(sends), o.Pending, o.Leaks)
+	return fmt.Sprintf("mkCase %s %d %s %s %s %d %d %s %d %d", gen.List(st), level, nlist(holds), gen.List(outs),
+		gen.List(sends), o.Pending, o.Leaks, nlist(whens), o.Nils, o.Crash)
 }
 
 // ---------------------------------------------------------------- generator
@@ -947,6 +1245,20 @@ func genScript(r *gen.Rand, flavour int) []step {
 					}
 				}
 			}
+			if len(waiting) == 1 && !hasDup(k.targets) {
+				// the late reply races the time-out of its own command: the timer wins the select,
+				// the reply takes the call out of pending, then the clean-up runs (forced by a held
+				// step; only with a single running timer, the others would fire meanwhile)
+				i := waiting[0]
+				t := k.targets[i]
+				if _, has := k.pending[t]; has {
+					add(3, func() {
+						if push(step{Op: "timeout", Cmd: k.id, W: i, Hold: true}) {
+							push(step{Op: "deliver", Cmd: k.id, T: t, P: newP(r.Chance(1, 4))})
+						}
+					})
+				}
+			}
 			if len(waiting) > 0 {
 				// "time passes": every waiting, unanswered worker times out, in release order
 				// (= the order in which the script released them; index order is used as the
@@ -1053,6 +1365,101 @@ func genScript(r *gen.Rand, flavour int) []step {
 	return steps
 }
 
+// genAlias: scripts aimed at the identity of per-command objects.  A first command leaves a
+// responder blocked on its call (the late reply races the time-out of its own command, or the
+// reply came before SendFunc failed); then one to three further commands - to the same or to
+// other targets - are sent, each observed for a while after its sends returned and before its
+// targets answer, fail or time out.
+func genAlias(r *gen.Rand) []step {
+	p := &planner{}
+	var steps []step
+	push := func(s step) bool {
+		if !p.apply(&s) {
+			return false
+		}
+		steps = append(steps, s)
+		return true
+	}
+	pc := 200
+	newP := func() int {
+		pc += 2
+		if r.Chance(1, 4) {
+			return pc + 1
+		}
+		return pc
+	}
+	pool := r.Range(2, 5)
+	pick := func(n int) []int {
+		perm := r.Perm(pool)
+		if n > pool {
+			n = pool
+		}
+		ts := make([]int, n)
+		for j := range ts {
+			ts[j] = perm[j] + 1
+		}
+		return ts
+	}
+	// command 1: leaves one (sometimes two) stale responders
+	ts := pick(r.Range(1, 2))
+	push(step{Op: "enq", Cmd: 1, Targets: ts})
+	for w, t := range ts {
+		switch {
+		case w == 0 && r.Chance(2, 3):
+			push(step{Op: "sendok", Cmd: 1, W: w})
+			if p.cur != nil && p.cur.id == 1 && len(ts) > 1 {
+				// the other worker must not have a running timer during the hold: finish it first
+				continue
+			}
+			push(step{Op: "timeout", Cmd: 1, W: w, Hold: true})
+			push(step{Op: "deliver", Cmd: 1, T: t, P: newP()})
+		default:
+			push(step{Op: "deliver", Cmd: 1, T: t, P: newP()})
+			push(step{Op: "senderr", Cmd: 1, W: w})
+		}
+	}
+	if p.cur != nil && p.cur.id == 1 {
+		// worker 0 still waits (two targets, the other one has failed by now): the race now
+		for w, t := range ts {
+			if p.cur != nil && p.cur.id == 1 && p.cur.ws[w].phase == phWait {
+				push(step{Op: "timeout", Cmd: 1, W: w, Hold: true})
+				push(step{Op: "deliver", Cmd: 1, T: t, P: newP()})
+			}
+		}
+	}
+	// followers
+	nf := r.Range(1, 3)
+	for c := 2; c < 2+nf; c++ {
+		var fts []int
+		if r.Chance(1, 3) {
+			fts = append([]int(nil), ts...) // same targets as the first command
+		} else {
+			fts = pick(r.Range(1, 3))
+		}
+		push(step{Op: "enq", Cmd: c, Targets: fts})
+		for w := range fts {
+			push(step{Op: "sendok", Cmd: c, W: w})
+		}
+		if r.Chance(1, 3) {
+			// a late duplicate of the first command's reply while the follower waits
+			push(step{Op: "deliver", Cmd: 1, T: ts[0], P: newP()})
+		}
+		var tos []int
+		for w, t := range fts {
+			switch r.Intn(4) {
+			case 0:
+				tos = append(tos, w)
+			default:
+				push(step{Op: "deliver", Cmd: c, T: t, P: newP()})
+			}
+		}
+		for _, w := range tos {
+			push(step{Op: "timeout", Cmd: c, W: w})
+		}
+	}
+	return steps
+}
+
 func kindOf(steps []step) string {
 	nc, dup, zero := 0, false, false
 	for _, s := range steps {
@@ -1071,6 +1478,12 @@ func kindOf(steps []step) string {
 		}
 	}
 	k := fmt.Sprintf("cmds=%d", nc)
+	for _, s := range steps {
+		if s.Hold {
+			k += "+race"
+			break
+		}
+	}
 	if dup {
 		k += "+duptarget"
 	}
@@ -1083,12 +1496,219 @@ func kindOf(steps []step) string {
 func strip(steps []step) []step {
 	out := make([]step, len(steps))
 	for i, s := range steps {
-		out[i] = step{Op: s.Op, Cmd: s.Cmd, W: s.W, T: s.T, P: s.P, Targets: s.Targets}
+		out[i] = step{Op: s.Op, Cmd: s.Cmd, W: s.W, T: s.T, P: s.P, Targets: s.Targets, Hold: s.Hold}
 	}
 	return out
 }
 
+// ---------------------------------------------------------------- child processes
+// The scripts are played in child processes: a panic of the code under test (e.g. commit
+// dereferencing a nil response) kills a child, not the run.  Level-0 scripts go in batches
+// (several at a time inside one child); when a batch child dies, the scripts it had not
+// finished are each replayed alone.  Level-1 scripts and replays always run one script per
+// child with GOMAXPROCS(1), which makes the reuse of per-P cached objects (sync.Pool, free
+// lists) from one command to the next deterministic.  A script whose own child dies is
+// reported as crashed (monitor code 12).
+
+type job struct {
+	Idx   int   `json:"idx"`
+	Input input `json:"input"`
+}
+
+type jobFile struct {
+	Solo bool  `json:"solo"`
+	Par  int   `json:"par"`
+	Jobs []job `json:"jobs"`
+}
+
+type jobResult struct {
+	Idx int         `json:"idx"`
+	Obs observation `json:"obs"`
+}
+
+func childMain(inFile, outFile string) {
+	logrus.SetOutput(io.Discard)
+	logrus.SetLevel(logrus.PanicLevel)
+	raw, err := os.ReadFile(inFile)
+	if err != nil {
+		panic(err)
+	}
+	var jf jobFile
+	if err := json.Unmarshal(raw, &jf); err != nil {
+		panic(err)
+	}
+	if jf.Solo {
+		runtime.GOMAXPROCS(1)
+		jf.Par = 1
+	}
+	out, err := os.OpenFile(outFile, os.O_CREATE|os.O_WRONLY|os.O_APPEND, 0o644)
+	if err != nil {
+		panic(err)
+	}
+	var omu sync.Mutex
+	var wg sync.WaitGroup
+	sem := make(chan struct{}, jf.Par)
+	for _, j := range jf.Jobs {
+		wg.Add(1)
+		sem <- struct{}{}
+		go func(j job) {
+			defer wg.Done()
+			defer func() { <-sem }()
+			ob, _ := runCase(j.Input)
+			b, _ := json.Marshal(jobResult{Idx: j.Idx, Obs: ob})
+			omu.Lock()
+			out.Write(append(b, '\n'))
+			omu.Unlock()
+		}(j)
+	}
+	wg.Wait()
+	out.Close()
+}
+
+// runChild plays the jobs in one child process and returns the results it delivered, whether
+// it ended normally and the tail of its output.
+func runChild(dir string, seq int, jf jobFile, limit time.Duration) (map[int]observation, bool, string) {
+	inFile := filepath.Join(dir, fmt.Sprintf("job_%d.json", seq))
+	outFile := filepath.Join(dir, fmt.Sprintf("res_%d.jsonl", seq))
+	b, _ := json.Marshal(jf)
+	if err := os.WriteFile(inFile, b, 0o644); err != nil {
+		panic(err)
+	}
+	os.Remove(outFile)
+	cmd := exec.Command(os.Args[0], "-c12child", inFile, outFile)
+	var tail bytes.Buffer
+	cmd.Stdout, cmd.Stderr = &tail, &tail
+	ok := true
+	if err := cmd.Start(); err != nil {
+		return nil, false, err.Error()
+	}
+	done := make(chan error, 1)
+	go func() { done <- cmd.Wait() }()
+	select {
+	case err := <-done:
+		ok = err == nil
+	case <-time.After(limit):
+		cmd.Process.Kill()
+		<-done
+		ok = false
+		tail.WriteString("\n[killed by the harness: time limit]")
+	}
+	res := map[int]observation{}
+	if raw, err := os.ReadFile(outFile); err == nil {
+		for _, line := range bytes.Split(raw, []byte{'\n'}) {
+			var jr jobResult
+			if len(line) > 0 && json.Unmarshal(line, &jr) == nil {
+				res[jr.Idx] = jr.Obs
+			}
+		}
+	}
+	os.Remove(inFile)
+	os.Remove(outFile)
+	t := tail.String()
+	if len(t) > 1500 {
+		t = t[:1500]
+	}
+	return res, ok, t
+}
+
+func runAll(o gen.Opts, inputs []input, forceSolo bool) ([]observation, int, int) {
+	dir := filepath.Join(o.Out, "children")
+	os.MkdirAll(dir, 0o755)
+	defer os.RemoveAll(dir)
+	par := 4
+	if v := os.Getenv("VERIF_C12_PAR"); v != "" {
+		if n, err := strconv.Atoi(v); err == nil && n > 0 {
+			par = n
+		}
+	}
+	results := make([]observation, len(inputs))
+	have := make([]bool, len(inputs))
+	var mu sync.Mutex
+	var seq int32
+	crashedChildren, crashedCases := 0, 0
+
+	solo := func(i int) {
+		res, ok, tail := runChild(dir, int(atomic.AddInt32(&seq, 1)), jobFile{Solo: true, Jobs: []job{{i, inputs[i]}}}, 150*time.Second)
+		mu.Lock()
+		defer mu.Unlock()
+		if ob, has := res[i]; has {
+			results[i], have[i] = ob, true
+			return
+		}
+		_ = ok
+		crashedCases++
+		results[i], have[i] = observation{Crash: 1, When: []int{}, Detail: tail}, true
+	}
+	runSolos := func(idxs []int, width int) {
+		var wg sync.WaitGroup
+		sem := make(chan struct{}, width)
+		for _, i := range idxs {
+			wg.Add(1)
+			sem <- struct{}{}
+			go func(i int) {
+				defer wg.Done()
+				defer func() { <-sem }()
+				solo(i)
+			}(i)
+		}
+		wg.Wait()
+	}
+
+	var solos, batched []int
+	for i, in := range inputs {
+		if forceSolo || in.Level == 1 {
+			solos = append(solos, i)
+		} else {
+			batched = append(batched, i)
+		}
+	}
+	runSolos(solos, 8)
+
+	const batchSize = 40
+	var retry []int
+	var wg sync.WaitGroup
+	sem := make(chan struct{}, 4)
+	for lo := 0; lo < len(batched); lo += batchSize {
+		hi := lo + batchSize
+		if hi > len(batched) {
+			hi = len(batched)
+		}
+		idxs := batched[lo:hi]
+		wg.Add(1)
+		sem <- struct{}{}
+		go func(idxs []int) {
+			defer wg.Done()
+			defer func() { <-sem }()
+			jf := jobFile{Par: par}
+			for _, i := range idxs {
+				jf.Jobs = append(jf.Jobs, job{i, inputs[i]})
+			}
+			res, ok, _ := runChild(dir, int(atomic.AddInt32(&seq, 1)), jf, 600*time.Second)
+			mu.Lock()
+			defer mu.Unlock()
+			if !ok {
+				crashedChildren++
+			}
+			for _, i := range idxs {
+				if ob, has := res[i]; has {
+					results[i], have[i] = ob, true
+				} else {
+					retry = append(retry, i)
+				}
+			}
+		}(idxs)
+	}
+	wg.Wait()
+	sort.Ints(retry)
+	runSolos(retry, 12)
+	return results, crashedChildren, crashedCases
+}
+
 func main() {
+	if len(os.Args) == 4 && os.Args[1] == "-c12child" {
+		childMain(os.Args[2], os.Args[3])
+		return
+	}
 	o := gen.ParseFlags()
 	logrus.SetOutput(io.Discard)
 	logrus.SetLevel(logrus.PanicLevel)
@@ -1127,7 +1747,20 @@ func main() {
 			}
 		}
 		r := gen.NewRand(o.Seed)
-		rMain, rOne, rMal := r.Fork(), r.Fork(), r.Fork()
+		rMain, rOne, rMal, rAli, rLvl := r.Fork(), r.Fork(), r.Fork(), r.Fork(), r.Fork()
+		// identity of per-command objects: a stale responder, then further commands; every
+		// script at the servent level and through the CommandQueue
+		na := o.N / 40
+		if na < 12 {
+			na = 12
+		}
+		for i := 0; i < na; i++ {
+			st := genAlias(rAli)
+			for _, lvl := range []int{1, 0} {
+				inputs = append(inputs, input{Steps: strip(st), Level: lvl})
+				kinds = append(kinds, fmt.Sprintf("alias:l%d:%s", lvl, kindOf(st)))
+			}
+		}
 		for i := 0; i < o.N; i++ {
 			var st []step
 			switch {
@@ -1138,43 +1771,29 @@ func main() {
 			default:
 				st = genScript(rMain, 0)
 			}
-			inputs = append(inputs, input{Steps: strip(st)})
-			kinds = append(kinds, kindOf(st))
+			lvl := 0
+			if rLvl.Chance(1, 8) {
+				lvl = 1
+			}
+			inputs = append(inputs, input{Steps: strip(st), Level: lvl})
+			k := kindOf(st)
+			if lvl == 1 {
+				k = "servent:" + k
+			}
+			kinds = append(kinds, k)
 		}
 	}
 
-	type res struct {
-		obs   observation
-		steps []step
-	}
-	results := make([]res, len(inputs))
-	par := 8
-	if v := os.Getenv("VERIF_C12_PAR"); v != "" {
-		if n, err := strconv.Atoi(v); err == nil && n > 0 {
-			par = n
-		}
-	}
-	var wg sync.WaitGroup
-	sem := make(chan struct{}, par)
-	for i := range inputs {
-		wg.Add(1)
-		sem <- struct{}{}
-		go func(i int) {
-			defer wg.Done()
-			defer func() { <-sem }()
-			ob, st := runCase(inputs[i])
-			results[i] = res{ob, st}
-		}(i)
-	}
-	wg.Wait()
+	obsAll, crashedChildren, crashedCases := runAll(o, inputs, o.Replay != "")
 
 	ops := map[string]int{}
 	notes := map[string]int{}
 	retried, stuck, maxT := 0, 0, 0
 	var cases []gen.Case
 	for i, in := range inputs {
-		ob := results[i].obs
-		for _, s := range results[i].steps {
+		ob := obsAll[i]
+		_, ann := annotate(in.Steps)
+		for _, s := range ann {
 			ops[s.Op]++
 			if s.Op == "deliver" {
 				notes["deliver:"+s.note]++
@@ -1192,7 +1811,8 @@ func main() {
 		cases = append(cases, gen.Case{Term: caseTerm(in, ob), Kind: kinds[i], Input: in, Obs: ob})
 	}
 	extra := map[string]any{"operations": ops, "deliveries": notes, "cases_repeated_for_timing": retried,
-		"cases_stuck": stuck, "max_timeout_ms": maxT, "base_timeout_ms": int(baseTimeout / time.Millisecond)}
+		"cases_stuck": stuck, "max_timeout_ms": maxT, "base_timeout_ms": int(baseTimeout / time.Millisecond),
+		"child_processes_died": crashedChildren, "cases_crashed": crashedCases, "held_steps_supported": holdsSupported}
 	if err := gen.WriteCases(o, "C12", "From Verif Require Import CmdQueue.", "c12_case", "report12", cases, extra); err != nil {
 		panic(err)
 	}
